@@ -4,6 +4,7 @@ import (
 	"fmt"
 	"math/big"
 	"math/rand"
+	"os"
 	"sort"
 	"strings"
 	"time"
@@ -40,6 +41,7 @@ type intent struct {
 	gov        *govInfo
 	movesValue bool
 	batch      []*sendInfo // several sends performed by one transaction (multicall)
+	tss        *tssInfo
 }
 
 type sendInfo struct {
@@ -540,6 +542,9 @@ func (w *world) deliver(c *xchain, in *intent, pre *snap) *snap {
 		out.events = packetEvents(res.Events)
 	}
 	w.rec.Logf("tx %s on %s code=%d ok=%v vm=%q %s", in.kind, c.Cfg.Name, res.Code, out.ok, out.vmErr, in.desc)
+	if os.Getenv("TSIM_DEBUG") != "" && res.Code != 0 {
+		fmt.Fprintln(os.Stderr, "DEBUG", in.desc, "::", strings.SplitN(res.Log, "\n", 2)[0])
+	}
 	w.afterTx(c, in, out)
 	return post
 }
